@@ -439,7 +439,8 @@ def replay(script, zclass, relativize, tid):
     trace = {"tid": tid, "zclass": zclass, "rel": relativize, "ev": []}
     ev = trace["ev"]
     zone, released = new_zone(zclass, relativize, init)  # released: objects handed to write transactions that have ended
-    handles = {}
+    handles = {}    # driver handle number -> open read transaction
+    ridmap = {}     # the script's handle label -> driver handle number of its latest open attempt
     wtxn = None
     kept = []       # objects handed to the open write transaction
     rec = {"op": "init", "kind": init["kind"]}
@@ -459,13 +460,35 @@ def replay(script, zclass, relativize, tid):
             if wtxn is not None:
                 extra.append({"op": "end", "how": "rollback"})
             for rid in sorted(handles):
-                extra.append({"op": "close", "rid": rid, "how": "exit"})
+                extra.append({"op": "close", "rid": rid, "how": "exit", "direct": True})
             steps[i:i] = extra
             continue
         rec = dict(e)
         rec.pop("maybe", None)
-        if rec.pop("if_open", False) and e["rid"] not in handles:
-            continue  # the open this call refers to was refused (by id / serial): nothing to do
+        rec.pop("if_open", None)
+        # Handle labels.  A script (from the generator's copy of the model, or from the random
+        # walker) only carries the environment's choices; where the specification leaves the
+        # library a choice (which of several versions with the requested serial reader(serial=)
+        # opens) the generator's idea of what is retained - hence of which later reader(id=)
+        # succeeds and which labels are free - may differ from what really happened.  So a label
+        # is only a name for "the reader opened by that step": an open always takes a driver
+        # handle that is really free, and a close / mutation attempt whose open the LIBRARY
+        # refused (already judged at that open, clause Outcome) is not a step at all: skipped,
+        # nothing logged.  `no-handle` remains for a label that no step of the script ever opened.
+        if op == "open":
+            rid = e["rid"] if e["rid"] not in handles else min(r for r in range(1, len(handles) + 2) if r not in handles)
+            ridmap[e["rid"]] = rid
+            rec["rid"] = rid
+        elif op in ("close", "mutate"):
+            if rec.pop("direct", False):
+                rid = e["rid"]
+            elif e["rid"] in ridmap:
+                rid = ridmap[e["rid"]]
+                if rid not in handles:
+                    continue
+            else:
+                rid = None
+            rec["rid"] = e["rid"] if rid is None else rid
         if op == "open":
             how = e["how"]
             if how == "latest":
@@ -478,16 +501,16 @@ def replay(script, zclass, relativize, tid):
                 res, exc, txn = call(lambda: zone.reader(id=2, serial=e["arg"]))
             if txn is not None:
                 txn.__enter__()
-                handles[e["rid"]] = txn
-        elif op in ("close", "mutate") and e["rid"] not in handles:
-            # the implementation refused an open the script relied on: nothing to call
+                handles[rid] = txn
+        elif op in ("close", "mutate") and rid is None:
+            # the script uses a handle label that none of its steps opened (a generator defect)
             res, exc = "err", "NoSuchHandle"
             rec["op"] = "no-handle"
         elif op in ("stage", "end") and wtxn is None:
             res, exc = "err", "NoWriter"
             rec["op"] = "no-writer"
         elif op == "close":
-            txn = handles.pop(e["rid"])
+            txn = handles.pop(rid)
             res, exc, _ = end_reader(txn, e["how"])
         elif op == "begin":
             if zone._write_txn is not None:
@@ -518,7 +541,7 @@ def replay(script, zclass, relativize, tid):
             pol = None if e["p"] == "default" else CUSTOM[e["p"]]
             res, exc, _ = call(lambda: zone.set_pruning_policy(pol))
         elif op == "mutate":
-            txn = handles[e["rid"]]
+            txn = handles[rid]
             rec["vkind"] = type(txn.version).__name__
             rec["vid"] = int(txn.version.id)
             what, raised, excs = mutate_through_reader(zone, txn, relativize)
